@@ -142,6 +142,20 @@ def run_real(env, case):
                 else:
                     m["entries"] = [env.entry_real(e) for e in case.get("entries", [])]
                 obj._SyncObj__onMessageReceived(N(case["from"]), m)
+            elif op == "frun":
+                so.monotonicTime = lambda: 1000.0
+                for fm in case["msgs"]:
+                    m = {"type": "append_entries", "term": st["term"], "commit_index": st["commit"]}
+                    if fm.get("prev") is not None:
+                        m["prevLogIdx"], m["prevLogTerm"] = fm["prev"]
+                    else:
+                        m["prevLogIdx"], m["prevLogTerm"] = None, None
+                    if fm.get("chunk") is not None:
+                        m["transmission"] = fm["chunk"][0]
+                        m["data"] = env.spans_bytes(fm["chunk"][1])
+                    else:
+                        m["entries"] = [env.entry_real(e) for e in fm.get("entries", [])]
+                    obj._SyncObj__onMessageReceived(N(case["from"]), m)
             elif op == "restore":
                 data = (None, env.entry_real(case["lastE"]), env.entry_real(case["prevE"]),
                         set(N(i) for i in case["cluster"]))
@@ -290,6 +304,16 @@ def driver_line(env, case, real):
         else:
             ln["entries"] = [ent(e) for e in case.get("entries", [])]
         return ln
+    if op == "frun":
+        ms = []
+        for fm in case["msgs"]:
+            d = {"prev": fm.get("prev")}
+            if fm.get("chunk") is not None:
+                d["chunk"] = [fm["chunk"][0], [[ent(e), p_, n_] for (e, p_, n_) in fm["chunk"][1]]]
+            else:
+                d["entries"] = [ent(e) for e in fm.get("entries", [])]
+            ms.append(d)
+        return {"op": op, "conf": case["conf"], "state": js, "from": case["from"], "msgs": ms}
     if op == "restore":
         return {"op": op, "state": js, "prevE": ent(case["prevE"]), "lastE": ent(case["lastE"]),
                 "cluster": case["cluster"], "dyn": case["conf"]["dyn"]}
@@ -369,7 +393,7 @@ def compare(env, case, real, model):
         ro.pop("ncalls", None)
         if model.get("obs") != ro:
             return "side observations (deadline re-armed, stored term/vote, stored commit): impl %s model %s" % (ro, model.get("obs"))
-    if merr is not None and op not in ("fappend", "appendmsg"):
+    if merr is not None and op not in ("fappend", "appendmsg", "frun"):
         return None
     if op == "capture":
         if real["extra"].get("cluster") != model.get("cluster"):
@@ -858,6 +882,33 @@ class Gen(object):
                 # complete burst on a log that conflicts / lacks prev
                 cases.append(self.fappend_case(log, [2, 1], chunk=["finish", [[e, spans[-1][0], spans[-1][1]]]], buf=[[e, 0, spans[-1][0]]]))
                 cases.append(self.fappend_case(log, [7, 1], chunk=["finish", [[e, spans[-1][0], spans[-1][1]]]], buf=[[e, 0, spans[-1][0]]]))
+        # every chunk label x prevLogIdx (none / beyond the log / term mismatch / compacted / ok) x receive buffer
+        # (initial '' / partial of this entry / partial of ANOTHER entry), alone ...
+        for first in (1, 6):
+            flog = self.log(first, [1, 9, 9], terms=[1, 1, 1])
+            last = flog[-1][1]
+            e = [mk("reg", size=25), last + 1, 2]
+            other = [mk("reg", size=33), last + 1, 3]
+            full = len(self.env.pickle.dumps(self.env.entry_real(e)))
+            prevs = [("none", None), ("beyond", [last + 4, 1]), ("mismatch", [last, 7]), ("ok", [last, 1])]
+            if first > 1:
+                prevs.append(("compacted", [first - 2, 1]))
+            bufs = [None, [[e, 0, 10]], [[other, 0, 12]], [[e, 0, full - 10]]]
+            for (pn, prev) in prevs:
+                for buf in bufs:
+                    for lab, span in (("start", [e, 0, 10]), ("process", [e, 10, 10]), ("finish", [e, full - 10, 10]),
+                                      ("finish", [e, 10, full - 10])):
+                        cases.append(self.fappend_case(flog, prev, chunk=[lab, [span]], buf=buf))
+                # ... and as whole bursts delivered in order (what the leader's chunk loop has already sent)
+                B = 10
+                spans = [(p, min(B, full - p)) for p in range(0, full, B)]
+                burst = [{"prev": prev, "chunk": ["start" if i == 0 else ("finish" if i == len(spans) - 1 else "process"), [[e, p, n]]]}
+                         for i, (p, n) in enumerate(spans)]
+                for buf in bufs[:3]:
+                    base = self.fappend_case(flog, prev, [], buf=buf)
+                    cases.append({"op": "frun", "conf": base["conf"], "state": base["state"], "from": 1, "msgs": burst})
+                    cases.append({"op": "frun", "conf": base["conf"], "state": base["state"], "from": 1,
+                                  "msgs": burst + [{"prev": [last, 1], "entries": []}] + burst})
         cases.append(self.fappend_case([], [1, 0], []))
         return cases
 
@@ -1110,7 +1161,7 @@ def classify(case, real, model):
             tags.append("check:unbatched")
         if case.get("budget") is not None:
             tags.append("check:budget")
-    if op == "fappend" and "out" in model:
+    if op in ("fappend", "frun") and "out" in model:
         for o in model["out"]:
             if o[0] == "send" and o[2]["t"] == "next":
                 m = o[2]
@@ -1152,7 +1203,7 @@ def classify(case, real, model):
 
 
 FLOORS = ["send:drop-inside-burst", "send:drop-inside-burst-readonly", "probe:unconfirmed", "probe:confirmed-exactly", "probe:confirmed-beyond", "send:pipelined", "op:send", "op:sendall", "op:check", "op:submit", "op:recv_apply", "op:recv_response", "op:leader_changed",
-          "op:fappend", "op:restore", "op:reapply", "op:journalfold", "op:capture", "op:appendmsg", "env:stale-term", "env:term-adopted", "env:term-equal",
+          "op:fappend", "op:frun", "op:restore", "op:reapply", "op:journalfold", "op:capture", "op:appendmsg", "env:stale-term", "env:term-adopted", "env:term-equal",
           "env:role-0", "env:role-1", "env:role-2", "env:leader-same", "env:leader-none", "env:leader-changed",
           "env:callbacks-leader-changed", "env:commit-raised", "env:commit-kept", "env:snap-none", "env:snap-notlast",
           "env:snap-broken", "env:snap-installed", "env:snap-kept", "env:snap-covered-callbacks", "env:regular", "batch:regular", "batch:chunked", "batch:heartbeat", "batch:snapshot",
